@@ -10,8 +10,10 @@ def main(tier, replay):
     run.functions = ['emitted <p>_feed / <p>_end (goto repeatswitch / fall_N / jpto_N re-dispatch)', 'compiled DFA via absm.dispatch', 'DfaCompileCtx._verify_fallthrough_loop (verdict on cycle candidates)']
     run.bounds = {'non_consuming_moves_per_symbol': 'N_states + 2 (abstract machine)', 'IR blocks per call': '60 * (N_states + 4)', 'chunk': '1 byte / end, any state, any data within Inv'}
     run.assumptions = ['hooks return', 'malloc returns']
-    jobs = l3check.jobs_for(tier, ('c04', 'byte', 'end'))
+    # corpus/cycle/*.nmfu are syntactic non-consuming-cycle candidates: the compiler must reject them; any it accepts must pass the unwinding assertions
+    jobs = l3check.jobs_for(tier, ('c04', 'byte', 'end'), kinds=('example', 'ok', 'verif', 'cycle'))
     consume(run, l3check.run_jobs(jobs), ('c04-unwind',), PID)
+    run.cov['cycle_candidates'] = sorted({j['label'] for j in jobs if '/cycle/' in j['label']})
     return run.finish('Unwinding assertion per (program, config, control state, symbolic byte or End, symbolic data): no feasible path of the emitted C exceeds the block budget '
                       'and no feasible path of the abstract machine performs more than N+2 non-consuming moves for one symbol. A hit is confirmed by running the gcc build under a time limit.')
 
